@@ -34,7 +34,11 @@ SPEC = {
              "strings / nothing, with and without return annotation; 4 signatures in the F45 region; 3 un-renderable "
              "annotations; 13 orders of virtual / persistent / method entries; 11 target x class-name combinations on two "
              "schemas) plus seeded random schemas (0-8 fields, 0-3 methods with generated signatures, nesting depth <= 2, "
-             "targets schema / configuration / config type); help= / name= texts (one line, several lines in the first paragraph, several paragraphs, leading #, quotes, "
+             "targets schema / configuration / config type); field / nested-schema / config-type / method keys from the soft keywords and builtin-looking names (type, match, "
+             "case, _, id, list, dict, str, int, object, property, print) in 51 matrix cases and in the random key pool; "
+             "instance methods registered through functools.wraps decorators that change the signature (pass-through, "
+             "injected / extra / renamed / narrowed parameters, two layers) and functools.partial objects (keyword- and "
+             "position-bound), 20 matrix cases and ~12% of the random methods; help= / name= texts (one line, several lines in the first paragraph, several paragraphs, leading #, quotes, "
              "backslashes, non-ASCII, triple quotes, trailing backslash, CR, FF) on every field kind and on 30% of the random "
              "fields; histories (45 matrix cases x 3 targets, 25% of the random cases): after the first generations a field / "
              "method / nested schema / config type is added or replaces an entry of another kind under the same key, the "
@@ -56,7 +60,16 @@ SPEC = {
                      "modelled, not verified: str() of typing constructs and class __module__/__name__ (read off the real "
                      "field / annotation objects per case), inspect.getfullargspec (per case), Python's grammar (replaced by "
                      "the stub fragment grammar of Stubs.parse_stub and compared with ast.parse on every case)"],
-    "assumptions": ["a stub describes the SCHEMA: fields added at run time to a configuration of a dynamic schema live in "
+    "assumptions": ["the bound function of an instance method is the callable that was registered: the unchanged code inspects "
+                    "it with inspect.getfullargspec, which does not follow __wrapped__, so a functools.wraps wrapper or a "
+                    "functools.partial is rendered with ITS parameters (what config.<name>(...) accepts); the oracle reads "
+                    "inspect.signature(method, follow_wrapped=False) minus the first parameter, the model gets the FullArgSpec of "
+                    "the registered callable",
+                    "callable OBJECTS (an instance with __call__, a bound method) registered as instance methods are outside "
+                    "the domain: getfullargspec reports their `self`, so the unchanged code renders the config parameter as an "
+                    "extra positional parameter (def m(self, cfg: typing.Any, a: int)); functools.partialmethod objects are not "
+                    "callable and cannot be instance methods; a partial of a wraps-wrapper is rejected by inspect.signature itself",
+                    "a stub describes the SCHEMA: fields added at run time to a configuration of a dynamic schema live in "
                     "config._fields and are not declared by generate_stub(config) (unchanged code; modelled as such)",
                     "field keys are non-keyword identifiers other than 'self' (a key that is a Python keyword, legal through "
                     "schema[\"from\"] = ..., yields `from: str`, which is not valid Python; a field named self yields a "
